@@ -167,3 +167,112 @@ func instrumentFile(src, dst string) error {
 	}
 	return os.WriteFile(dst, []byte(out), 0o644)
 }
+
+// instrumentWindows copies a Go source file of /repo's working tree and puts a
+// `verifWindow("<func>:<line>", <ctx>)` call in front of every statement (at
+// any nesting depth, closures excluded) of every method whose receiver is
+// *killedHandler (ctx = recv.ctx) or *Context (ctx = recv) and whose name is
+// in funcs (empty = all such methods). Insertions stay on the statement's own
+// line, so line numbers are those of the working tree.
+func instrumentWindows(src, dst string, funcs map[string]bool) error {
+	b, err := os.ReadFile(src)
+	if err != nil {
+		return err
+	}
+	fset := token.NewFileSet()
+	f, err := parser.ParseFile(fset, src, b, parser.ParseComments)
+	if err != nil {
+		return err
+	}
+	type edit struct {
+		off  int
+		text string
+	}
+	var edits []edit
+	var curFunc, ctxExpr string
+	var walkBlock func(list []ast.Stmt)
+	var walkStmt func(s ast.Stmt, canInsert bool)
+	point := func(s ast.Stmt) {
+		pos := fset.Position(s.Pos())
+		edits = append(edits, edit{off: pos.Offset, text: fmt.Sprintf("verifWindow(%q, %s); ", fmt.Sprintf("%s:%d", curFunc, pos.Line), ctxExpr)})
+	}
+	walkStmt = func(s ast.Stmt, canInsert bool) {
+		if canInsert {
+			switch s.(type) {
+			case *ast.LabeledStmt, *ast.CaseClause, *ast.CommClause, *ast.BlockStmt, *ast.EmptyStmt:
+			default:
+				point(s)
+			}
+		}
+		switch st := s.(type) {
+		case *ast.BlockStmt:
+			walkBlock(st.List)
+		case *ast.LabeledStmt:
+			walkStmt(st.Stmt, false)
+		case *ast.IfStmt:
+			walkBlock(st.Body.List)
+			switch el := st.Else.(type) {
+			case *ast.IfStmt:
+				walkStmt(el, false)
+			case *ast.BlockStmt:
+				walkBlock(el.List)
+			}
+		case *ast.ForStmt:
+			walkBlock(st.Body.List)
+		case *ast.RangeStmt:
+			walkBlock(st.Body.List)
+		case *ast.SwitchStmt:
+			walkBlock(st.Body.List)
+		case *ast.TypeSwitchStmt:
+			walkBlock(st.Body.List)
+		case *ast.SelectStmt:
+			walkBlock(st.Body.List)
+		case *ast.CaseClause:
+			walkBlock(st.Body)
+		case *ast.CommClause:
+			walkBlock(st.Body)
+		}
+	}
+	walkBlock = func(list []ast.Stmt) {
+		for _, s := range list {
+			walkStmt(s, true)
+		}
+	}
+	for _, d := range f.Decls {
+		fd, ok := d.(*ast.FuncDecl)
+		if !ok || fd.Body == nil || fd.Recv == nil || len(fd.Recv.List) != 1 || len(fd.Recv.List[0].Names) != 1 {
+			continue
+		}
+		if len(funcs) > 0 && !funcs[fd.Name.Name] {
+			continue
+		}
+		star, ok := fd.Recv.List[0].Type.(*ast.StarExpr)
+		if !ok {
+			continue
+		}
+		id, ok := star.X.(*ast.Ident)
+		if !ok {
+			continue
+		}
+		recv := fd.Recv.List[0].Names[0].Name
+		switch id.Name {
+		case "killedHandler":
+			ctxExpr = recv + ".ctx"
+		case "Context":
+			ctxExpr = recv
+		default:
+			continue
+		}
+		curFunc = fd.Name.Name
+		walkBlock(fd.Body.List)
+	}
+	sort.SliceStable(edits, func(i, j int) bool { return edits[i].off > edits[j].off })
+	out := string(b)
+	for _, e := range edits {
+		out = out[:e.off] + e.text + out[e.off:]
+	}
+	if !strings.Contains(out, "verifWindow(") {
+		return fmt.Errorf("no window point could be placed in %s", src)
+	}
+	return os.WriteFile(dst, []byte(out), 0o644)
+}
